@@ -985,6 +985,11 @@ func (c PrepareCallInstr) execute(env *Zlisp) error {
 			if f.varargs {
 				return env.wrangleOptargs(f.nargs, nargs)
 			}
+			// same arity check as CallFunction makes for a regular call
+			if nargs != f.nargs {
+				return fmt.Errorf("%s expected %d arguments, got %d",
+					f.name, f.nargs, nargs)
+			}
 		}
 	}
 	return nil
